@@ -178,42 +178,8 @@ Proof.
   intro H. apply andb_true_iff in H. destruct H. constructor; auto.
 Qed.
 
-Lemma forallb_true_Forall {A} (p : A -> bool) l : forallb p l = true -> Forall (fun x => p x = true) l.
-Proof. intro H. apply Forall_forall. intros x I. rewrite forallb_forall in H. auto. Qed.
-
-Lemma wt_int_inv w x : wt (TInt w) x = true -> exists n, x = VInt n.
-Proof. destruct x; cbn [wt]; try discriminate. eauto. Qed.
-
-Lemma wt_arr_Forall (p : val -> bool) : forall k l, wt_arr p k l = true -> Forall (fun x => p x = true) l.
-Proof.
-  induction k; destruct l; cbn [wt_arr]; try discriminate; [constructor|].
-  intro H. apply andb_true_iff in H. destruct H. constructor; auto.
-Qed.
-
-Lemma wt_int_inv w x : wt (TInt w) x = true -> exists n, x = VInt n.
-Proof. destruct x; cbn [wt]; try discriminate. eauto. Qed.
-
-Lemma wt_arr_Forall (p : val -> bool) : forall k l, wt_arr p k l = true -> Forall (fun x => p x = true) l.
-Proof.
-  induction k; destruct l; cbn [wt_arr]; try discriminate; [constructor|].
-  intro H. apply andb_true_iff in H. destruct H. constructor; auto.
-Qed.
-
-Lemma wt_arr_Forall (p : val -> bool) : forall k l, wt_arr p k l = true -> Forall (fun x => p x = true) l.
-Proof.
-  induction k; destruct l; cbn [wt_arr]; try discriminate; [constructor|].
-  intro H. apply andb_true_iff in H. destruct H. constructor; auto.
-Qed.
-
 Lemma wt_tuple_inv ts y : wt (TTuple ts) y = true -> exists vs, y = VTuple vs /\ wt_fields wt ts vs = true.
 Proof. destruct y; cbn [wt]; try discriminate. eauto. Qed.
-
-Lemma wt_fields_cons_inv t ts vs : wt_fields wt (t :: ts) vs = true ->
-  exists v vs', vs = v :: vs' /\ wt t v = true /\ wt_fields wt ts vs' = true.
-Proof.
-  destruct vs as [|v vs']; cbn [wt_fields]; [discriminate|]. intro H.
-  apply andb_true_iff in H. destruct H. eauto.
-Qed.
 
 Lemma wt_fields_cons_inv t ts vs : wt_fields wt (t :: ts) vs = true ->
   exists v vs', vs = v :: vs' /\ wt t v = true /\ wt_fields wt ts vs' = true.
@@ -231,12 +197,6 @@ Proof.
   destruct y; cbn [wt]; try discriminate. intro H. apply andb_true_iff in H. destruct H. eauto.
 Qed.
 
-Lemma wt_enum_inv vs y : wt (TEnum vs) y = true ->
-  exists idx p, y = VEnum idx p /\ wt_variant wt vs idx p = true.
-Proof.
-  destruct y; cbn [wt]; try discriminate. intro H. apply andb_true_iff in H. destruct H. eauto.
-Qed.
-
 Lemma wt_unit_inv y : wt TUnit y = true -> y = VUnit.
 Proof. destruct y; cbn [wt]; try discriminate. reflexivity. Qed.
 
@@ -246,86 +206,6 @@ Proof. destruct y; cbn [wt]; try discriminate. eauto. Qed.
 Lemma wt_opt_inv t y : wt (TOpt t) y = true ->
   y = VOpt None \/ exists x, y = VOpt (Some x) /\ wt t x = true.
 Proof. destruct y as [| | | | |[x|]| | | |]; cbn [wt]; try discriminate; eauto. Qed.
-
-Lemma morph_of_val_total y : wt asset_id_ty y = true -> exists r, morph_of_val y = Some r.
-Proof.
-  unfold asset_id_ty. intro H. apply wt_enum_inv in H. destruct H as (idx & p & -> & H).
-  cbn [wt_variant] in H. destruct (N.eqb_spec idx 0) as [->|N0].
-  - apply wt_tuple_inv in H. destruct H as (vs & -> & H).
-    apply wt_fields_cons_inv in H. destruct H as (a & vs' & -> & Ha & H).
-    apply wt_fields_cons_inv in H. destruct H as (b & vs'' & -> & Hb & H).
-    apply wt_fields_nil_inv in H. subst vs''.
-    apply wt_unit_inv in Hb. subst b.
-    apply wt_tuple_inv in Ha. destruct Ha as (l & -> & Ha).
-    apply wt_fields_cons_inv in Ha. destruct Ha as (g & l' & -> & Hg & Ha).
-    apply wt_fields_cons_inv in Ha. destruct Ha as (i & l'' & -> & Hi & Ha).
-    apply wt_fields_nil_inv in Ha. subst l''.
-    apply wt_int_inv in Hg. destruct Hg as [g' ->]. apply wt_int_inv in Hi. destruct Hi as [i' ->].
-    cbn. eauto.
-  - destruct (N.eqb_spec (N.pred idx) 0) as [E|N1]; [|discriminate].
-    assert (idx = 1) by lia. subst idx.
-    apply wt_tuple_inv in H. destruct H as (vs & -> & H).
-    apply wt_fields_cons_inv in H. destruct H as (a & vs' & -> & Ha & H).
-    apply wt_fields_nil_inv in H. subst vs'.
-    apply wt_bytes_inv in Ha. destruct Ha as [u ->]. cbn. eauto.
-Qed.
-
-Lemma wt_bytes_inv y : wt TBytes y = true -> exists b, y = VBytes b.
-Proof. destruct y; cbn [wt]; try discriminate. eauto. Qed.
-
-Lemma wt_opt_inv t y : wt (TOpt t) y = true ->
-  y = VOpt None \/ exists x, y = VOpt (Some x) /\ wt t x = true.
-Proof. destruct y as [| | | | |[x|]| | | |]; cbn [wt]; try discriminate; eauto. Qed.
-
-Lemma morph_of_val_total y : wt asset_id_ty y = true -> exists r, morph_of_val y = Some r.
-Proof.
-  unfold asset_id_ty. intro H. apply wt_enum_inv in H. destruct H as (idx & p & -> & H).
-  cbn [wt_variant] in H. destruct (N.eqb_spec idx 0) as [->|N0].
-  - apply wt_tuple_inv in H. destruct H as (vs & -> & H).
-    apply wt_fields_cons_inv in H. destruct H as (a & vs' & -> & Ha & H).
-    apply wt_fields_cons_inv in H. destruct H as (b & vs'' & -> & Hb & H).
-    apply wt_fields_nil_inv in H. subst vs''.
-    apply wt_unit_inv in Hb. subst b.
-    apply wt_tuple_inv in Ha. destruct Ha as (l & -> & Ha).
-    apply wt_fields_cons_inv in Ha. destruct Ha as (g & l' & -> & Hg & Ha).
-    apply wt_fields_cons_inv in Ha. destruct Ha as (i & l'' & -> & Hi & Ha).
-    apply wt_fields_nil_inv in Ha. subst l''.
-    apply wt_int_inv in Hg. destruct Hg as [g' ->]. apply wt_int_inv in Hi. destruct Hi as [i' ->].
-    cbn. eauto.
-  - destruct (N.eqb_spec (N.pred idx) 0) as [E|N1]; [|discriminate].
-    assert (idx = 1) by lia. subst idx.
-    apply wt_tuple_inv in H. destruct H as (vs & -> & H).
-    apply wt_fields_cons_inv in H. destruct H as (a & vs' & -> & Ha & H).
-    apply wt_fields_nil_inv in H. subst vs'.
-    apply wt_bytes_inv in Ha. destruct Ha as [u ->]. cbn. eauto.
-Qed.
-
-Lemma wt_opt_inv t y : wt (TOpt t) y = true ->
-  y = VOpt None \/ exists x, y = VOpt (Some x) /\ wt t x = true.
-Proof. destruct y as [| | | | |[x|]| | | |]; cbn [wt]; try discriminate; eauto. Qed.
-
-Lemma morph_of_val_total y : wt asset_id_ty y = true -> exists r, morph_of_val y = Some r.
-Proof.
-  unfold asset_id_ty. intro H. apply wt_enum_inv in H. destruct H as (idx & p & -> & H).
-  cbn [wt_variant] in H. destruct (N.eqb_spec idx 0) as [->|N0].
-  - apply wt_tuple_inv in H. destruct H as (vs & -> & H).
-    apply wt_fields_cons_inv in H. destruct H as (a & vs' & -> & Ha & H).
-    apply wt_fields_cons_inv in H. destruct H as (b & vs'' & -> & Hb & H).
-    apply wt_fields_nil_inv in H. subst vs''.
-    apply wt_unit_inv in Hb. subst b.
-    apply wt_tuple_inv in Ha. destruct Ha as (l & -> & Ha).
-    apply wt_fields_cons_inv in Ha. destruct Ha as (g & l' & -> & Hg & Ha).
-    apply wt_fields_cons_inv in Ha. destruct Ha as (i & l'' & -> & Hi & Ha).
-    apply wt_fields_nil_inv in Ha. subst l''.
-    apply wt_int_inv in Hg. destruct Hg as [g' ->]. apply wt_int_inv in Hi. destruct Hi as [i' ->].
-    cbn. eauto.
-  - destruct (N.eqb_spec (N.pred idx) 0) as [E|N1]; [|discriminate].
-    assert (idx = 1) by lia. subst idx.
-    apply wt_tuple_inv in H. destruct H as (vs & -> & H).
-    apply wt_fields_cons_inv in H. destruct H as (a & vs' & -> & Ha & H).
-    apply wt_fields_nil_inv in H. subst vs'.
-    apply wt_bytes_inv in Ha. destruct Ha as [u ->]. cbn. eauto.
-Qed.
 
 Lemma int_list_total w l :
   Forall (fun x => wt (TInt w) x = true) l ->
